@@ -76,8 +76,29 @@ def run_met(case):
     return obs
 
 
+def gen_any(rng, tier='quick', rollover=0.3, min_steps=1, lb_share=0.2):
+    if rng.random() < lb_share:
+        c = M.gen_lb(rng, tier, rollover)
+        while len(c['steps']) < min_steps:
+            c = M.gen_lb(rng, tier, rollover)
+        return c
+    return M.gen_met(rng, tier=tier, rollover=rollover, min_steps=min_steps)
+
+
+def _year_end_23(c):
+    for s in c['steps']:
+        d = s['bdate']
+        yy, jjj = divmod(d, 1000)
+        last = 366 if yy % 4 == 0 else 365
+        if s['bhour'] == 23 and jjj == last:
+            return True
+    return False
+
+
 def region_of(c):
     """known-defect regions of the met readers (see known_findings/C08|C09|C13|C14.json)"""
+    if c['fmt'] == 'lateral_boundary':
+        return 1 if _year_end_23(c) else 0   # writer derives the end date as YYJJJ + 1 at midnight
     if c['fmt'] == 'wind' and c['nx'] * c['ny'] == 1:
         return 12      # data records as long as the 1-word dummy record: reader cannot delimit the layers
     if len(c['steps']) == 1:
